@@ -35,6 +35,7 @@ M = [
     ("pool-no-catchall", ["C13"], "gwf/backends/local.py", "        except Exception:\n            logger.exception(\"task %s could not be run\", name)\n            if proc is not None and proc.returncode is None:\n                await self._gentle_kill(proc)\n            self.task_states[tid] = LocalStatus.FAILED\n", ""),
     ("pool-timeout-completed", ["C13"], "gwf/backends/local.py", "            self.task_states[tid] = LocalStatus.KILLED", "            self.task_states[tid] = LocalStatus.COMPLETED"),
     ("pool-logs-swapped", ["C13"], "gwf/backends/local.py", "                    log_file.write(stderr)", "                    log_file.write(stdout)"),
+    ("abs-path-not-normalised", ["C03"], "gwf/core.py", "        return os.path.normpath(path)\n", "        return path\n"),
     # ---- staleness
     ("stale-ge", ["C01"], "gwf/scheduling.py", "    if youngest_in_ts > oldest_out_ts:", "    if youngest_in_ts >= oldest_out_ts:"),
     ("stale-min-in", ["C01"], "gwf/scheduling.py", "    youngest_in_ts, _ = max(", "    youngest_in_ts, _ = min("),
